@@ -285,20 +285,24 @@ theorem convOutI_erase (o : Opts) (lim : Limit) : ∀ (n : Nat) (x : Obj),
       simp only [convOutI, convOut, erase, eraseL_length]
       rw [← convElemsI_erase o lim (!o.s2l) none (n + 1) l, ← convElemsI_erase o lim false none (n + 1) l,
         ← convElemsI_erase o lim false lim (n + 1) l]
-      cases k.isSetLike
-      · cases k.isSeq
-        · cases convElemsI o lim false lim (n + 1) l <;> simp [eraseR, eraseRL, erase]
+      cases k.isView
+      · cases k.isSetLike
+        · cases k.isSeq
+          · cases convElemsI o lim false lim (n + 1) l <;> simp [eraseR, eraseRL, erase]
+          · cases lim.admits l.length
+            · simp [eraseR]
+            · cases convElemsI o lim false none (n + 1) l <;> simp [eraseR, eraseRL, erase]
         · cases lim.admits l.length
           · simp [eraseR]
-          · cases convElemsI o lim false none (n + 1) l <;> simp [eraseR, eraseRL, erase]
+          · cases convElemsI o lim (!o.s2l) none (n + 1) l <;> simp [eraseR, eraseRL, erase]
       · cases lim.admits l.length
         · simp [eraseR]
-        · cases convElemsI o lim (!o.s2l) none (n + 1) l <;> simp [eraseR, eraseRL, erase]
+        · cases convElemsI o lim false none (n + 1) l <;> simp [eraseR, eraseRL, erase]
   | n, .lazyMap id src l => by
       simp only [convOutI, convOut, erase]
       rw [← convElemsI_erase o lim false lim (n + 1) l]
       cases convElemsI o lim false lim (n + 1) l <;>
-        simp [eraseR, eraseRL, erase, SeqKind.isSetLike, SeqKind.isSeq]
+        simp [eraseR, eraseRL, erase, SeqKind.isSetLike, SeqKind.isSeq, SeqKind.isView]
 theorem convElemsI_erase (o : Opts) (lim : Limit) (nh : Bool) : ∀ (b : Option Nat) (n : Nat) (l : List Obj),
     eraseRL (convElemsI o lim nh b n l) = convElems o lim nh b (eraseL l)
   | b, n, [] => by simp [convElemsI, convElems, eraseL, eraseRL]
@@ -402,10 +406,18 @@ theorem convOutI_fresh (o : Opts) (lim : Limit) : ∀ (n : Nat) (x : Obj) (p : O
             · cases h
           · cases h
         · split at h
-          · rename_i q hq
-            simp only [Except.ok.injEq] at h; subst h
-            exact fresh_seq_node _ (by simpa [hostLeaves] using convElemsI_fresh o lim _ _ (n + 1) l q hq)
-          · cases h
+          · split at h
+            · split at h
+              · rename_i q hq
+                simp only [Except.ok.injEq] at h; subst h
+                exact fresh_seq_node _ (by simpa [hostLeaves] using convElemsI_fresh o lim _ _ (n + 1) l q hq)
+              · cases h
+            · cases h
+          · split at h
+            · rename_i q hq
+              simp only [Except.ok.injEq] at h; subst h
+              exact fresh_seq_node _ (by simpa [hostLeaves] using convElemsI_fresh o lim _ _ (n + 1) l q hq)
+            · cases h
   | n, .lazyMap id src l, p, h => by
       simp only [convOutI] at h
       split at h
@@ -539,11 +551,20 @@ theorem convOutI_nodup (o : Opts) (lim : Limit) : ∀ (n : Nat) (x : Obj) (p : O
             · cases h
           · cases h
         · split at h
-          · rename_i q hq
-            simp only [Except.ok.injEq] at h; subst h
-            exact nodup_node (convElemsI_nodup o lim _ _ (n + 1) l q hq)
-              (fun i hi => ((convElemsI_fresh o lim _ _ (n + 1) l q hq).2.1 i hi).1)
-          · cases h
+          · split at h
+            · split at h
+              · rename_i q hq
+                simp only [Except.ok.injEq] at h; subst h
+                exact nodup_node (convElemsI_nodup o lim _ _ (n + 1) l q hq)
+                  (fun i hi => ((convElemsI_fresh o lim _ _ (n + 1) l q hq).2.1 i hi).1)
+              · cases h
+            · cases h
+          · split at h
+            · rename_i q hq
+              simp only [Except.ok.injEq] at h; subst h
+              exact nodup_node (convElemsI_nodup o lim _ _ (n + 1) l q hq)
+                (fun i hi => ((convElemsI_fresh o lim _ _ (n + 1) l q hq).2.1 i hi).1)
+            · cases h
   | n, .lazyMap id src l, p, h => by
       simp only [convOutI] at h
       split at h
